@@ -15,7 +15,7 @@ CHECKS = {
    note='trusted: simulator fakes (transport, fork = deep copy with shared IPC objects, task processes with seeded runtime/exit code); client side and agent_0 are played by the driver; Continuous and (scheduler focus, JSRUN launch method configured) ContinuousJsrun schedulers',
    technique='deterministic simulation: seeded workloads + schedule search, per-grant shape oracle'),
  'C03': dict(
-   text='full agent with every way a task can end (exit 0/non-0, cancel before/after spawn/at exit, timeout, spawn error, exit racing the kill) and line-level pre-emption in the executor; history oracle: releases per granted uid == 1, scheduler node map back to initial capacity once nothing is held. Sampling, not proof.',
+   text='full agent with every way a task can end (exit 0/non-0, cancel before/after spawn/at exit, timeout, spawn error, exit racing the kill) and line-level pre-emption in the executor; history oracle: releases per granted uid == 1, scheduler node map back to initial capacity once nothing is held (Continuous and ContinuousJsrun). Sampling, not proof.',
    ref='4 (C03)',
    note='trusted: simulator fakes (transport, fork = deep copy with shared IPC objects, task processes with seeded runtime/exit code); client side and agent_0 are played by the driver; Continuous and (scheduler focus, JSRUN launch method configured) ContinuousJsrun schedulers',
    technique='deterministic simulation with fault injection: exactly-once release + capacity conservation at quiescence'),
@@ -68,7 +68,7 @@ CHECKS = {
    technique='deterministic simulation: in-memory pubsub network, delivery-count model oracle'),
 
  'C20': dict(
-   text='raptor world: real Master, DefaultWorker (request callback, allocator, forked dispatch process + forked call process, result watcher) and Worker dispatchers (function, method, eval, exec, proc, shell) plus the real agent scheduler raptor forwarding; master, worker and every forked request are separate simulated processes with their own os.environ, cwd and stdio; seeded request streams (core/GPU demands, payloads that return, print, raise, change the environment or stdout, sleep on the virtual clock, time out incl. completion == timeout, requests before the master registered) and faults (fork() failing for the dispatch or call process, message delays, stalled threads); oracles: step invariant slot_shared / alloc_shape on every allocation, at quiescence result_count == 1, target_state <=> exit code, routing by mode, (out, err, ret, val, exc) vs. payload truth table, alloc_leak, env_leak, stdio_leak of the worker process. Sampling, not proof.',
+   text='raptor world: real Master, DefaultWorker (request callback, allocator, forked dispatch process + forked call process, result watcher) and Worker dispatchers (function, method, eval, exec, proc, shell) plus the real agent scheduler raptor forwarding; master, worker and every forked request are separate simulated processes with their own os.environ, cwd and stdio; seeded request streams (core/GPU demands, payloads that return, print, raise, change the environment or stdout, sleep on the virtual clock, time out incl. completion == timeout, requests before the master registered) and faults (fork() failing for the dispatch or call process, message delays, stalled threads); oracles: step invariant slot_shared / alloc_shape on every allocation, at quiescence result_count == 1, target_state <=> exit code, routing by mode, (out, err, ret, val, exc) vs. payload truth table, alloc_leak, env_leak / stdio_leak of the worker process and around every dispatcher call (os.environ and sys.stdout before vs. after, in the process which runs the dispatcher), task service calls return exactly once. Sampling, not proof.',
    ref='4 (C20), 9.6',
    note='trusted: simulator fakes (transport, fork = deep copy with shared IPC objects, per-process environ/cwd/stdio views); master task service (ru.zmq.Server) stubbed; heartbeats not exercised; MPI worker not driven; proc/shell payloads run the real /bin/true, /bin/false, /bin/echo while the calling sim thread holds the baton',
    technique='deterministic simulation with fault injection: seeded request streams + schedule search, allocation step invariant + result truth-table oracle at quiescence'),
